@@ -87,7 +87,15 @@ func (o OneOfSchema[KeyType]) UnserializeType(data any) (result any, err error) 
 		}
 	}
 
-	discriminatorValue := reflectedValue.MapIndex(reflect.ValueOf(o.DiscriminatorFieldNameValue))
+	// The discriminator can only be looked up in a map whose keys can hold its name.
+	discriminatorKey := reflect.ValueOf(o.DiscriminatorFieldNameValue)
+	keyType := reflectedValue.Type().Key()
+	if (keyType.Kind() != reflect.String && keyType.Kind() != reflect.Interface) || !discriminatorKey.CanConvert(keyType) {
+		return result, &ConstraintError{
+			Message: fmt.Sprintf("Invalid key type for one-of: '%s'", keyType.String()),
+		}
+	}
+	discriminatorValue := reflectedValue.MapIndex(discriminatorKey.Convert(keyType))
 	if !discriminatorValue.IsValid() {
 		return result, &ConstraintError{
 			Message: fmt.Sprintf("Missing discriminator field '%s' in '%v'", o.DiscriminatorFieldNameValue, data),
